@@ -147,6 +147,8 @@ class Evaluator:
         self.work = []
         self.path = None
         self.depth = 0
+        self.run_globals = {}
+        self.dict_universe = None
 
     # ------------------------------------------------------------------------------------------
     # driver
@@ -161,13 +163,14 @@ class Evaluator:
             self.decisions = self.work.pop()
             self.pos = 0
             self.path = Path()
-            V.reset_trans() if False else None
+            self.run_globals = {}
             args, kwargs = make_args()
             try:
                 self.path.result = self.call_function(fref, args, kwargs, top=True)
             except _Raise as r:
                 self.path.exc = r.exc
             self.path.args = (args, kwargs)
+            self.path.globals = self.run_globals
             paths.append(self.path)
         return paths
 
@@ -729,6 +732,9 @@ class Evaluator:
         if any(k == "**" and hasattr(v, "merge_into") for k, v in parts):
             from .symdict import merge_dicts
             return merge_dicts(self, parts)
+        if not parts and getattr(self, "dict_universe", None):
+            from .symdict import SymDict
+            return SymDict.from_concrete(self.dict_universe, {}, "fresh")
         d = {}
         for k, v in parts:
             if k == "**":
@@ -1253,6 +1259,8 @@ class Evaluator:
                 if attr == "linalg":
                     return Opaque("numpy.linalg")
                 return NpFn(attr)
+            if obj.name == "copy" and attr == "deepcopy":
+                return Builtin("deepcopy")
             return Opaque(obj.name + "." + attr)
         if isinstance(obj, Obj):
             if attr in obj.attrs:
@@ -1552,6 +1560,16 @@ class Env:
             kind, ref = S.resolve_import(mod, k)
             if kind == "opaque":
                 return Opaque("%s.%s" % ref)
+            if kind == "const" and isinstance(ref, (dict, list, set)):
+                # mutable module-level object: one tracked instance per run (aliasing within the
+                # run is preserved, writes are recorded for the frame obligations)
+                gk = (mod.name, k)
+                if gk not in ev.run_globals:
+                    import copy as _copy
+                    from .symdict import TrackedDict
+                    ev.run_globals[gk] = TrackedDict(_copy.deepcopy(ref)) if isinstance(ref, dict) \
+                        else _copy.deepcopy(ref)
+                return ev.run_globals[gk]
             if kind != "unknown":
                 return ev.wrap_resolved(kind, ref)
         if k in BUILTINS:
